@@ -140,11 +140,19 @@ def listed():
 SEARCH_THEOREMS_C05 = ["PauLie.C05.compile_YIY", "PauLie.C05.compile_IIX", "PauLie.C05.C05_refuted_model", "PauLie.C05.C05_refuted_zero_model",
                        "PauLie.C05.observed_are_model_runs", "PauLie.C05.C05_verified_return", "PauLie.C05.C05_verified_return_matrix",
                        "PauLie.C05.C05_wI_valid", "PauLie.CompilerSearch.compileTargetB_eq", "PauLie.CompilerSearch.compileWith_verified",
-                       "PauLie.CompilerSearch.leftMapOverA_sound"]
+                       "PauLie.CompilerSearch.leftMapOverA_sound",
+                       "PauLie.C05.C05_subsystem_dichotomy", "PauLie.C05.C05_nested_is_product", "PauLie.C05.C05_verified_return_valid",
+                       "PauLie.C05.C05_verified_return_wellformed", "PauLie.C05.C05_failures_only_unverified"]
 SEARCH_THEOREMS_C06 = ["PauLie.C06.C06_refuted", "PauLie.C06.C06_refuted_run", "PauLie.C06.C06_refuted_left_only", "PauLie.C06.C06_refuted_even_k",
                        "PauLie.C06.observed_raises_are_model_runs", "PauLie.C06.compileTarget_guards", "PauLie.C06.left_search_sound",
                        "PauLie.C06.left_search_complete", "PauLie.C06.left_search_odd_obstruction", "PauLie.C06.C06_fails_odd_wI",
-                       "PauLie.CompilerSearch.compileTargetB_eq"]
+                       "PauLie.CompilerSearch.compileTargetB_eq",
+                       "PauLie.C06.left_search_never_out_of_fuel", "PauLie.C06.left_search_errors", "PauLie.C06.left_search_total",
+                       "PauLie.C06.left_search_decides", "PauLie.C06.subsystem_loop_fuel", "PauLie.C06.interleavings_fuel",
+                       "PauLie.C06.compileTarget_total", "PauLie.C06.compileTarget_never_out_of_fuel",
+                       "PauLie.C06.C06_fails_odd_wI_raises", "PauLie.C06.C06_fails_odd_single_raises",
+                       "PauLie.C06.left_graph_even_connected", "PauLie.C06.left_search_even_returns",
+                       "PauLie.C06.C06_holds_even_wI", "PauLie.C06.C06_holds_even_single"]
 
 def replay_compile(line, out):
     """shared part of the replay of a `compile` line: the model's run next to the implementation's"""
